@@ -19,8 +19,10 @@
     C16_dice_identical C16_dice_identical_eps C16_dice_symmetric C16_dice_range
     C16_tversky_identical C16_tversky_symmetric C16_tversky_range C16_tversky_half_is_dice
     C16_mi_symmetric C16_mi_symmetric_wrapper
-    C16_ncc_mask_refuted C16_ncc_mask_always_rejected C16_tversky_loss_refuted
-    C16_tversky_weight_binary_refuted C16_tversky_weight_binary_always_rejected C16_mi_mask_refuted
+    C16_tversky_loss_focal C16_tversky_loss_error_passthrough C16_tversky_loss_identical C16_tversky_loss_range
+    C16_tversky_loss_symmetric C16_tversky_loss_reductions C16_tversky_loss_half_is_dice_loss
+    C16_tversky_weight_binary_accepted
+    C16_ncc_mask_refuted C16_ncc_mask_always_rejected C16_mi_mask_refuted
 -/
 import Deepali.Proofs.LossesWrappers
 import Deepali.Proofs.LossesOverlap
@@ -350,40 +352,110 @@ theorem C16_ncc_mask_always_rejected (red : Reduction) (x y m : T K) (eps : K) (
     ∃ e, nccLoss red x y (some m) eps = .error e :=
   nccLoss_mask_error red x y m eps hm
 
-/-- F-16a: `tversky_loss` has no value for any input (the call passes an unknown keyword). -/
-theorem C16_tversky_loss_refuted [LT K] [DecidableRel (α := K) (· < ·)] (red : Reduction) (x y : T K)
-    (w : Option (T K)) (alpha beta eps : K) (gamma : Option K) :
-    ¬ ∃ v, tverskyLoss red x y w alpha beta eps gamma = .ok v := by
-  rintro ⟨v, hv⟩; cases hv
-
 end Field
-
-/-- "accepts every documented mask shape" for `tversky_index`: weight `(N, …X)` or `(N, 1|C, …X)`. -/
-def C16_tversky_weight_Statement : Prop :=
-  ∀ (x y w : T ℚ), x.shape = y.shape → 4 ≤ x.shape.length →
-    (w.shape = x.shape ∨ w.shape = x.shape.headD 0 :: 1 :: x.shape.drop 2 ∨ w.shape = x.shape.headD 0 :: x.shape.drop 2) →
-    ∃ v, tverskyIndex .mean x y (some w) (1 / 2) (1 / 2) 0 false = .ok v
-
-theorem C16_tversky_weight_binary_refuted : ¬ C16_tversky_weight_Statement := by
-  intro h
-  obtain ⟨v, hv⟩ := h ⟨[1, 1, 2, 2], fun _ => 1⟩ ⟨[1, 1, 2, 2], fun _ => 1⟩ ⟨[1, 1, 2, 2], fun _ => 1⟩ rfl
-    (by decide) (Or.inl rfl)
-  have : tverskyIndex .mean (⟨[1, 1, 2, 2], fun _ => 1⟩ : T ℚ) ⟨[1, 1, 2, 2], fun _ => 1⟩
-      (some ⟨[1, 1, 2, 2], fun _ => 1⟩) (1 / 2) (1 / 2) 0 false = .error "err:value:weight-shape" := by rfl
-  rw [this] at hv; cases hv
 
 section Floor
 variable {K : Type} [Field K] [LinearOrder K] [IsStrictOrderedRing K] [FloorRing K]
 
-/-- for a binary prediction `(N, 1, …X)` both documented weight shapes are rejected, always. -/
-theorem C16_tversky_weight_binary_always_rejected (red : Reduction) (N : Nat) (sp : List Nat)
+/-! ## Tversky loss (`tversky_loss`, repaired by commit 830fa90) and weighted binary Tversky (b020f45) -/
+
+/-- `tversky_loss = (1 − TI)^gamma`: once `tversky_index` has a value `ti`, the loss before
+    `reduce_loss` is `1 − ti` for `gamma` None / 0 / 1, `pw (1 − ti)` for `gamma > 1` (`pw` = the power
+    `t ↦ t^gamma`, e.g. `npow n`), and a `ValueError` for the remaining `gamma < 1`. -/
+theorem C16_tversky_loss_focal (pw : K → K) (x y : T K) (w : Option (T K)) (alpha beta eps : K) (b : Bool)
+    (n : Nat) (ti : Nat → K) (m : Option (Nat → K))
+    (h : tverskyPrep x y w alpha beta eps b = .ok (n, ti, m)) :
+    tverskyLossPrep pw x y w alpha beta eps b none = .ok (n, fun k => 1 - ti k, none) ∧
+    (∀ g : K, 1 < g → tverskyLossPrep pw x y w alpha beta eps b (some g) = .ok (n, fun k => pw (1 - ti k), none)) ∧
+    (∀ g : K, g = 0 ∨ g = 1 → tverskyLossPrep pw x y w alpha beta eps b (some g) = .ok (n, fun k => 1 - ti k, none)) ∧
+    (∀ g : K, g < 1 → g ≠ 0 → tverskyLossPrep pw x y w alpha beta eps b (some g) = .error "err:value:gamma") :=
+  tverskyLossPrep_of_ok pw x y w alpha beta eps b n ti m h
+
+/-- … and whenever `tversky_index` rejects its arguments, `tversky_loss` reports the same error. -/
+theorem C16_tversky_loss_error_passthrough (pw : K → K) (red : Reduction) (x y : T K) (w : Option (T K))
+    (alpha beta eps : K) (b : Bool) (gamma : Option K) (e : String)
+    (h : tverskyIndex .none x y w alpha beta eps b = .error e) :
+    tverskyLoss pw red x y w alpha beta eps b gamma = .error e := by
+  unfold tverskyIndex finish at h
+  unfold tverskyLoss
+  cases hp : tverskyPrep x y w alpha beta eps b with
+  | error e' =>
+    rw [hp] at h
+    simp only [Except.map, Except.error.injEq] at h
+    rw [tverskyLossPrep_of_error pw x y w alpha beta eps b gamma e' hp, h]; rfl
+  | ok r => rw [hp] at h; simp [Except.map] at h
+
+/-- 'sum' / 'mean' of `tversky_loss` are the sum / mean of its 'none' output. -/
+theorem C16_tversky_loss_reductions (pw : K → K) (x y : T K) (w : Option (T K)) (alpha beta eps : K) (b : Bool)
+    (gamma : Option K) :
+    tverskyLoss pw .sum x y w alpha beta eps b gamma
+      = (tverskyLoss pw .none x y w alpha beta eps b gamma).map (fun v => [lsum v]) ∧
+    (∀ n l, tverskyLossPrep pw x y w alpha beta eps b gamma = .ok (n, l, none) →
+      tverskyLoss pw .mean x y w alpha beta eps b gamma
+        = (tverskyLoss pw .none x y w alpha beta eps b gamma).map (fun v => [lsum v / ((v.length : Nat) : K)])) :=
+  ⟨finish_sum _, fun n l h => finish_mean _ n l none h⟩
+
+/-- a binary prediction `(N, 1, …X)` with either documented weight shape is accepted and the
+    weight is applied sample by sample (all `N`, all spatial shapes, every reduction). -/
+theorem C16_tversky_weight_binary_accepted (red : Reduction) (N : Nat) (sp : List Nat)
     (hsp : 2 ≤ sp.length) (x y w : T K) (hx : x.shape = N :: 1 :: sp) (hy : y.shape = N :: 1 :: sp)
-    (hw : w.shape = N :: 1 :: sp ∨ w.shape = N :: sp) (alpha beta eps : K) (b : Bool) :
-    tverskyIndex red x y (some w) alpha beta eps b = .error "err:value:weight-shape" := by
+    (hw : w.shape = N :: 1 :: sp ∨ w.shape = N :: sp) (alpha beta eps : K) :
+    tverskyIndex red x y (some w) alpha beta eps false
+      = .ok (reduceLoss red (N * 1) (tverskyAt (prod sp) x.data y.data (some w.data) alpha beta eps) none) := by
   unfold tverskyIndex
-  rw [tverskyPrep_weight_binary N sp hsp x y w hx hy hw]; rfl
+  rw [tverskyPrep_weight_binary_ok N sp hsp x y w hx hy hw]; rfl
 
 end Floor
+
+section Ordered2
+variable {K : Type} [Field K] [LinearOrder K] [IsStrictOrderedRing K]
+
+/-- identical binary segmentations: the Tversky loss is exactly 0, also with a focal exponent `n ≥ 1`. -/
+theorem C16_tversky_loss_identical (S : Nat) (p : Nat → K) (w : Option (Nat → K)) (alpha beta eps : K) (k n : Nat)
+    (hp : ∀ s, s < S → p (k * S + s) * p (k * S + s) = p (k * S + s))
+    (h : dotCh S p p w k + eps ≠ 0) (hn : 1 ≤ n) :
+    1 - tverskyAt S p p w alpha beta eps k = 0 ∧ npow n (1 - tverskyAt S p p w alpha beta eps k) = 0 := by
+  rw [tverskyAt_self_binary S p w alpha beta eps k hp h, npow_eq]
+  exact ⟨sub_self 1, by rw [sub_self]; exact zero_pow (by omega)⟩
+
+/-- range `[0, 1]`, also with a focal exponent. -/
+theorem C16_tversky_loss_range (S : Nat) (p y : Nat → K) (w : Option (Nat → K)) {alpha beta eps : K} (k n : Nat)
+    (hp : ∀ s, s < S → 0 ≤ p (k * S + s) ∧ p (k * S + s) ≤ 1)
+    (hy : ∀ s, s < S → 0 ≤ y (k * S + s) ∧ y (k * S + s) ≤ 1)
+    (hw : ∀ s, s < S → 0 ≤ wOf w (k * S + s)) (ha : 0 ≤ alpha) (hb : 0 ≤ beta) (he : 0 ≤ eps) :
+    (0 ≤ 1 - tverskyAt S p y w alpha beta eps k ∧ 1 - tverskyAt S p y w alpha beta eps k ≤ 1) ∧
+    (0 ≤ npow n (1 - tverskyAt S p y w alpha beta eps k) ∧ npow n (1 - tverskyAt S p y w alpha beta eps k) ≤ 1) := by
+  obtain ⟨h0, h1⟩ := tverskyAt_range S p y w k hp hy hw ha hb he
+  have a0 : 0 ≤ 1 - tverskyAt S p y w alpha beta eps k := by linarith
+  have a1 : 1 - tverskyAt S p y w alpha beta eps k ≤ 1 := by linarith
+  rw [npow_eq]
+  exact ⟨⟨a0, a1⟩, pow_nonneg a0 n, pow_le_one₀ a0 a1⟩
+
+/-- exchanging prediction and target exchanges `alpha` and `beta`; symmetric for `alpha = beta`
+    (with or without the focal power). -/
+theorem C16_tversky_loss_symmetric (pw : K → K) (S : Nat) (p y : Nat → K) (w : Option (Nat → K))
+    (alpha beta eps : K) (k : Nat) :
+    pw (1 - tverskyAt S p y w alpha beta eps k) = pw (1 - tverskyAt S y p w beta alpha eps k) := by
+  rw [tverskyAt_swap]
+
+/-- on binary inputs the Tversky loss with `alpha = beta = ½` and smoothing `ε` is the Dice loss
+    with smoothing `2ε` (equal for `ε = 0`). -/
+theorem C16_tversky_loss_half_is_dice_loss (S : Nat) (p y : Nat → K) (w : Option (Nat → K)) (eps : K) (k : Nat)
+    (hp : ∀ s, s < S → p (k * S + s) * p (k * S + s) = p (k * S + s))
+    (hy : ∀ s, s < S → y (k * S + s) * y (k * S + s) = y (k * S + s)) :
+    1 - tverskyAt S p y w (1 / 2) (1 / 2) eps k = 1 - diceAt S p y w (2 * eps) k := by
+  rw [tverskyAt_half_eq_dice S p y w eps k hp hy]
+
+end Ordered2
+
+/-- concrete instances: focal Tversky loss with `gamma = 2` through the wrapper, and a weighted
+    binary prediction (both documented weight shapes). -/
+example : tverskyLoss (npow 2) .none ⟨[1, 1, 2, 2], fun i => [1, 0, 1, 1].getD i (0 : ℚ)⟩
+      ⟨[1, 1, 2, 2], fun i => [1, 1, 0, 1].getD i 0⟩ none (1 / 2) (1 / 2) 0 false (some 2) = .ok [1 / 9] ∧
+    tverskyIndex .none ⟨[1, 1, 2, 2], fun i => [1, 0, 1, 1].getD i (0 : ℚ)⟩
+      ⟨[1, 1, 2, 2], fun i => [1, 1, 0, 1].getD i 0⟩ (some ⟨[1, 2, 2], fun i => [1, 1, 0, 0].getD i 0⟩)
+      (1 / 2) (1 / 2) 0 false = .ok [2 / 3] := by
+  decide +kernel
 
 /-- "averages only over the masked region" for `mi_loss`: the masked loss equals the loss of the
     masked samples alone (here: one item, two samples, the second masked out). -/
